@@ -99,8 +99,21 @@ Proof. exact C02.fixed_D27. Qed.
 Check fixed_D27.
 Print Assumptions fixed_D27.
 
-(* the unrestricted entry statement is false (D30: str(k) against an integer above i64) *)
-Theorem entry_refines_unrestricted_refuted : ~ entry_refines_stmt.
-Proof. exact C02.entry_refines_false. Qed.
-Check entry_refines_unrestricted_refuted.
-Print Assumptions entry_refines_unrestricted_refuted.
+(* D30 as repaired (fix: commit 8cc439e): `str(f): 18446744073709551615`
+   on the field 18446744073709551615 is true, as the reference says *)
+Example entry_fixed_D30 :
+  let o1 := {| re_valid := fun _ _ => true; re_match := fun _ _ _ => false; f64_parse := fun _ => None;
+               f64_show := fun _ => [49;56;52;52;54;55;52;52;48;55;51;55;48;57;53;53;50;48;48;48]%N;
+               uni_alnum := fun _ => false; uni_num := fun _ => false |} in
+  let k := [115; 116; 114; 40; 102; 41]%N in
+  let z := 18446744073709551615%Z in
+  let d : doc := fun _ => Some (VUInt z) in
+  let e := ESearch (SExact [49;56;52;52;54;55;52;52;48;55;51;55;48;57;53;53;49;54;49;53]%N) [102%N] true in
+  scalar_yaml (YInt z) = true /\
+  parse_entry o1 false (YStr k) (YInt z) None [] = Ok e /\
+  read_key o1 k = Some (KStr, [102%N]) /\
+  solve_body o1 e (pure_doc d) = Ok T /\
+  sem_entry_scalar o1 false KStr [102%N] (YInt z) d = T.
+Proof. exact C02.entry_fixed_D30. Qed.
+Check entry_fixed_D30.
+Print Assumptions entry_fixed_D30.
